@@ -13,7 +13,8 @@
       did not fail (the "Canceled instead of EOF" outcome is this code);
    7  at the end of a complete schedule an operation never returned;
    8  an open / send / half-close failed on a stream whose handler had not
-      returned. *)
+      returned;
+   9  two stream-opening envelopes on the client's transport carry the same id. *)
 From Coq Require Import List ZArith Bool Lia.
 Import ListNotations.
 From Goat Require Import Check.SysC.
@@ -112,12 +113,23 @@ Fixpoint scan (m : list (Z * sst)) (evs : list hev) (acc : list nat) : list (Z *
   end.
 
 Definition norm (l : list nat) : list nat :=
-  filter (fun c => existsb (Nat.eqb c) l) [2; 3; 4; 5; 6; 7; 8]%nat.
+  filter (fun c => existsb (Nat.eqb c) l) [2; 3; 4; 5; 6; 7; 8; 9]%nat.
+
+(* ids of the stream-opening envelopes (header only) written by the client *)
+Definition open_ids (evs : list hev) : list (Z * unit) :=
+  filter_map' (fun e => match e with
+                        | WC2S w => match w_body w, w_status w with
+                                    | None, None => if w_trl w || w_rst w then None else Some (w_id w, tt)
+                                    | _, _ => None
+                                    end
+                        | _ => None
+                        end) evs.
+Definition open_ids_distinct (evs : list hev) : bool := strictly_increasing (keys (msort (open_ids evs))).
 
 Definition spec_c02 (complete : bool) (evs : list hev) : list nat :=
   let '(m, bad) := scan [] evs [] in
   let hung := complete && existsb (fun ks => negb (open_ops (snd ks) =? 0)) m in
-  norm (bad ++ (if hung then [7%nat] else [])).
+  norm (bad ++ (if hung then [7%nat] else []) ++ (if open_ids_distinct evs then [] else [9%nat])).
 
 Definition judge (c : c02case) : list nat :=
   match c with C02Run complete steps => spec_c02 complete (events steps) end.
@@ -141,6 +153,9 @@ Example early_handler_eof :
 Proof. vm_compute. reflexivity. Qed.
 Example eof_with_message_missing :
   spec_c02 false [COpenS 0 1; COpenR 0 0; HStS 0; HSendS 0 5; HSendR 0 0; HRet 0 0; CRecvS 0; CRecvR 0 (RErr 1)] = [5]%nat.
+Proof. vm_compute. reflexivity. Qed.
+Example same_open_id :
+  spec_c02 false [WC2S (mkW 1 None None false false); COpenS 0 2; COpenR 0 0; WC2S (mkW 1 None None false false); COpenS 1 2; COpenR 1 0] = [9]%nat.
 Proof. vm_compute. reflexivity. Qed.
 Example hung_recv :
   spec_c02 true [COpenS 0 1; COpenR 0 0; HStS 0; HRet 0 0; CRecvS 0] = [7]%nat.
